@@ -459,3 +459,20 @@ Theorem C01_glue_rs_matches_model :
   (forall w a, Glue.I_overflowing_abs w a = I_overflowing_abs w a).
 Proof. exact glue_addsub_matches_model. Qed.
 Print Assumptions C01_glue_rs_matches_model.
+(* ---- tie to the source: the LOOP functions REGENERATED from /repo/src/buint/overflowing.rs and
+   /repo/src/buint/ops.rs on every run (Generated/Loops.v, tools/rs2v_loops.py; control-flow vocabulary
+   Model/Imp.v) compute exactly the model's functions: with an iteration budget of at least N they neither
+   panic nor run out of budget.  (Add<Digit> indexes digit 0: only for N > 0, like the Rust code.) ---- *)
+From Bnum.Model Require Import Imp.
+From Bnum.Model Require Ops.
+From Bnum.Generated Require Import Loops.
+From Bnum.Proofs Require Import LoopsTieC01.
+Theorem C01_loops_rs_match_model w : 0 < w ->
+  (forall n a b fuel, wf w n a -> wf w n b -> (n <= fuel)%nat ->
+     Loops.overflowing_add w (Z.of_nat n) fuel a b = Done (U_overflowing_add w a b)) /\
+  (forall n a b fuel, wf w n a -> wf w n b -> (n <= fuel)%nat ->
+     Loops.overflowing_sub w (Z.of_nat n) fuel a b = Done (U_overflowing_sub w a b)) /\
+  (forall n a d fuel, (0 < n)%nat -> wf w n a -> (n <= fuel)%nat ->
+     Loops.add_digit w (Z.of_nat n) fuel a d = Done (Ops.U_Add_digit w a d)).
+Proof. exact (loops_C01_match_model w). Qed.
+Print Assumptions C01_loops_rs_match_model.
